@@ -758,6 +758,12 @@ def c12_decode_for(kind, maxrecv, size):
             cfg = dict(role="server", ver=3, gate_pub=1, gate_proto=0, max_qos=2, max_receive=maxrecv, max_receive_size=size)
         elif kind == "v5s":
             cfg = dict(role="server", ver=5, gate_pub=1, gate_proto=1, max_qos=2, ack_receive_max=maxrecv, max_receive_size=size)
+        elif kind == "v5s_lo":
+            # the handshake service announces a Receive Maximum ABOVE the configured default: the announced one counts
+            cfg = dict(role="server", ver=5, gate_pub=1, gate_proto=1, max_qos=2, max_receive=1, ack_receive_max=maxrecv, max_receive_size=size)
+        elif kind == "v5s_zero":
+            # configured "unlimited" (0), the handshake service announces a limit: it has to be enforced
+            cfg = dict(role="server", ver=5, gate_pub=1, gate_proto=1, max_qos=2, max_receive=0, ack_receive_max=maxrecv, max_receive_size=size)
         elif kind == "v3c":
             cfg = dict(role="client", ver=3, gate_pub=1, gate_proto=0, max_qos=2, max_receive=maxrecv, max_receive_size=size)
         else:
@@ -785,7 +791,7 @@ def c12_decode_for(kind, maxrecv, size):
                     n = 4 if streaming <= 8 else 30
                     cmds.append({"c": "in", "p": {"t": "payload", "n": n}}); streaming -= n
             elif t == 6:
-                if kind == "v5s":
+                if kind.startswith("v5s"):
                     cmds.append({"c": "in", "p": {"t": "subscribe", "id": nid}}); nid += 1
                 elif kind == "v3s":
                     cmds.append({"c": "in", "p": {"t": "pingreq"}})
@@ -847,7 +853,7 @@ def c12_configs(tier):
     cs = c12_model_configs(tier)
     L = 4 if tier == "quick" else 5
     combos = [("v3s", 1, 0), ("v3s", 2, 0), ("v3s", 0, 40), ("v3s", 2, 40), ("v3s", 0, 0),
-              ("v5s", 1, 0), ("v5s", 2, 0), ("v5c", 1, 0), ("v5c", 2, 0), ("v5s", 2, 40),
+              ("v5s", 1, 0), ("v5s", 2, 0), ("v5c", 1, 0), ("v5c", 2, 0), ("v5s", 2, 40), ("v5s_lo", 2, 0), ("v5s_zero", 1, 0),
               ("v3c", 0, 0), ("v3c", 2, 0)]
     if tier == "thorough":
         combos += [("v3s", 3, 0), ("v3s", 4, 0), ("v3s", 1, 40), ("v5s", 3, 0), ("v5s", 4, 0)]
